@@ -359,7 +359,9 @@ def run15(tier):
     quick = tier == 'quick'
     rng = random.Random(common.seed() * 3 + 15)
     T = tables()
-    ages = [35, 50, 72.5, 90] if quick else [20, 35, 42.5, 50, 65, 80.5, 95, 105]
+    # ages across the table INCLUDING its two ends: the first columns (where field rows have empty cells) and the last ones
+    # (2015 ends at 100, 2023 at 110) - seed C15-k used a stale 'max_age = 100' on the interpolation path only
+    ages = [8, 35, 50, 72.5, 90, 101, 108] if quick else [5, 8, 13, 20, 35, 42.5, 50, 65, 80.5, 95, 100, 101, 105, 108, 110]
     lanes, ds = [], set()
     for tbl in ('2015', '2023'):
         d = T[tbl]
